@@ -1,8 +1,9 @@
 (* C06 -- performance MIDI export and import preserve notes, controls and timing.
    Statements + `exact` only; proofs in Proofs/C06*.v.  The model (Model/C06.v: save, load,
-   pair_notes, sort_notes, tempo_list, adjust_time) is tied to partitura/io/exportmidi.py and
-   importmidi.py by the correspondence run by harness/props/c06.py on every check. *)
-From PV Require Import Lib.Base Lib.Round Model.C12 Model.C06 Proofs.C06_lib Proofs.C06 Proofs.C06_pair Proofs.C06_save Proofs.C06_merge Proofs.C06_check.
+   pair_notes, sort_notes, tempo_list, adjust_time; Model/C06_perf.v: sanitize, rs_notes, rs_times) is
+   tied to partitura/io/exportmidi.py, importmidi.py, performance.py and utils/music.py by the
+   correspondence run by harness/props/c06.py on every check. *)
+From PV Require Import Lib.Base Lib.Round Model.C12 Model.C06 Model.C06_perf Proofs.C06_lib Proofs.C06 Proofs.C06_pair Proofs.C06_save Proofs.C06_merge Proofs.C06_check Proofs.C06_sec Proofs.C06_perf Proofs.C06_tracks.
 From Coq Require Import QArith Qabs Sorted Permutation.
 #[local] Open Scope Z_scope.
 
@@ -197,3 +198,163 @@ Theorem check_notes_sound : forall paired obs,
   Permutation obs paired /\ StronglySorted (fun a b => lex4_le (lnote_key a) (lnote_key b)) obs.
 Proof. exact check_notes_sound_lemma. Qed.
 Print Assumptions check_notes_sound.
+
+(* ======================================================================================
+   load (save p): seconds.  The saved file carries one set_tempo (mpq, tick 0, first track); whatever the
+   loader's default tempo and with tracks merged on export, on import, on both sides or not at all, the
+   loader's tempo map turns tick k into k * mpq / (10^6 * ppq) seconds -- for every performance that has
+   no set_tempo among its items and writes at least one message *)
+Theorem save_load_seconds : forall rule ppq mpq dmpq (ms ml : bool) ps k,
+  no_tempo ps -> save_tracks rule ppq mpq ps <> [] -> 0 <= k ->
+  adjust_time ppq (snd (load dmpq ml (save rule ppq mpq ms ps))) k = tick_to_sec ppq mpq k.
+Proof. exact save_load_seconds_lemma. Qed.
+Print Assumptions save_load_seconds.
+
+(* ... hence a time t comes back, in seconds, at most half a tick of the exported file away from t: "onset /
+   offset equal to the original times rounded to the nearest tick" *)
+Theorem save_load_time_halftick : forall rule ppq mpq dmpq (ms ml : bool) ps t,
+  no_tempo ps -> save_tracks rule ppq mpq ps <> [] -> 0 < ppq -> 0 < mpq -> 0 <= sec_to_tick_r rule ppq mpq t ->
+  (Qabs (adjust_time ppq (snd (load dmpq ml (save rule ppq mpq ms ps))) (sec_to_tick_r rule ppq mpq t) - t)
+   <= inject_Z mpq / inject_Z (2 * (1000000 * ppq)))%Q.
+Proof. exact save_load_time_halftick_lemma. Qed.
+Print Assumptions save_load_time_halftick.
+
+(* O1, controls / programs / signatures / meta with tracks merged (once: on export or on import; twice: on
+   both sides): whatever class f of messages the loader selects from the single merged track (any class
+   without set_tempo and end_of_track: is_cc, is_pc, is_key, is_time, the text-like meta events) is, as a
+   multiset of (nearest tick, message), what the exporter emits for all tracks together *)
+Theorem save_load_items_merged : forall rule ppq mpq ps (f : msg -> bool), f (Tempo mpq) = false -> f EndOfTrack = false ->
+  Permutation (sel f (undelta 0 (merge_tracks (save rule ppq mpq false ps)))) (sel f (map strip (emit_parts rule ppq mpq [] ps))) /\
+  Permutation (sel f (undelta 0 (merge_tracks [merge_tracks (save rule ppq mpq false ps)]))) (sel f (map strip (emit_parts rule ppq mpq [] ps))).
+Proof. exact save_load_items_merged_lemma. Qed.
+Print Assumptions save_load_items_merged.
+
+(* the default program changes of the exporter: none for a part that has program changes; for a part without,
+   program 0 exactly on the (track, channel) pairs of its controls and notes, at the earliest tick written so
+   far (so never after a message already written) *)
+Theorem default_programs_spec : forall sofar p,
+  (pp_progs p <> [] -> default_programs sofar p = []) /\
+  (pp_progs p = [] -> forall e, In e (default_programs sofar p) <->
+      exists tr ch, e = (tr, first_tick sofar, PC ch 0) /\ In (tr, ch) (part_pairs p)) /\
+  (forall e, In e sofar -> first_tick sofar <= ev_tick e).
+Proof. exact default_programs_spec_lemma. Qed.
+Print Assumptions default_programs_spec.
+
+Example save_load_seconds_example :
+  no_tempo ex_ps /\ save_tracks 0 480 500000 ex_ps <> [] /\
+  (adjust_time 480 (snd (load 600000 true (save 0 480 500000 true ex_ps))) 960 == 1)%Q /\
+  default_programs [(0, 7, Meta 1)] (hd (mkPP [] [] [] [] [] []) ex_ps) = [(0, 7, PC 0 0); (0, 7, PC 1 0)].
+Proof. exact save_load_seconds_example_lemma. Qed.
+Print Assumptions save_load_seconds_example.
+
+(* ======================================================================================
+   Performance.sanitize_track_numbers (what Performance(...) does to the track numbers before anything is
+   saved, and what the loader's Performance(...) does to the parts it has read).  The number of a (part,
+   track) pair is the number of distinct pairs below it in the lexicographic order ... *)
+Theorem sanitize_numbering : forall ps x, In x (all_pairs ps) ->
+  track_no (sorted_pairs (all_pairs ps)) x
+  = Z.of_nat (List.length (filter (fun y => pair_ltb y x) (puniq (all_pairs ps)))).
+Proof. exact sanitize_numbering_lemma. Qed.
+Print Assumptions sanitize_numbering.
+
+(* ... so the renumbering keeps the order of the pairs, gives the items of one (part, track) one number and
+   different pairs different numbers (the notes, controls and programs of a track stay together and apart
+   from every other track: "the same track" after save -> load is meaningful) ... *)
+Theorem sanitize_order : forall ps x y, In x (all_pairs ps) -> In y (all_pairs ps) ->
+  (track_no (sorted_pairs (all_pairs ps)) x < track_no (sorted_pairs (all_pairs ps)) y <-> pair_lt x y) /\
+  (track_no (sorted_pairs (all_pairs ps)) x = track_no (sorted_pairs (all_pairs ps)) y <-> x = y).
+Proof. exact sanitize_order_perf_lemma. Qed.
+Print Assumptions sanitize_order.
+
+(* ... the numbers are 0 .. n-1 for n distinct pairs (the exporter then writes n file tracks in this order) *)
+Theorem sanitize_range : forall ps x, In x (all_pairs ps) ->
+  0 <= track_no (sorted_pairs (all_pairs ps)) x < Z.of_nat (List.length (sorted_pairs (all_pairs ps))).
+Proof. exact sanitize_range_perf_lemma. Qed.
+Print Assumptions sanitize_range.
+
+(* ... renumbering a renumbered performance changes nothing (a loaded Performance wrapped into a Performance
+   again, the performedparts of one handed to another) ... *)
+Theorem sanitize_idempotent : forall ps, sanitize (sanitize ps) = sanitize ps.
+Proof. exact sanitize_idempotent_lemma. Qed.
+Print Assumptions sanitize_idempotent.
+
+(* ... and the parts the loader builds -- everything read from one file track carries that track's index,
+   tracks without notes, controls and programs are left out -- get the position of the part as their number *)
+Theorem sanitize_loaded : forall ps, Forall single_track ps ->
+  sanitize ps = map (fun x => pmap (fun _ => fst x) (snd x)) (number_from 0 ps).
+Proof. exact sanitize_loaded_lemma. Qed.
+Print Assumptions sanitize_loaded.
+
+(* what the correspondence checker check_sanitize establishes for an observed renumbering: two items have
+   the same observed number exactly when the model gives them the same number *)
+Theorem check_sanitize_sound : forall m o, same_partition m o = true ->
+  forall a b, In a (combine m o) -> In b (combine m o) -> (fst a = fst b <-> snd a = snd b).
+Proof. exact same_partition_sound. Qed.
+Print Assumptions check_sanitize_sound.
+
+Example sanitize_example :
+  sanitize [([0; 0; 2], [-1], []); ([0], [0; 5], [5]); ([], [], [1])]
+  = [([1; 1; 2], [0], []); ([3], [3; 4], [4]); ([], [], [5])] /\
+  Forall single_track [([3; 3], [3], []); ([], [7], []); ([4], [], [4])] /\
+  sanitize [([3; 3], [3], []); ([], [7], []); ([4], [], [4])] = [([0; 0], [0], []); ([], [1], []); ([2], [], [2])].
+Proof. exact sanitize_example_lemma. Qed.
+Print Assumptions sanitize_example.
+
+(* ======================================================================================
+   remove_silence_from_performed_part (load_performance(..., first_note_at_zero=True)): notes whose offset is
+   not before their onset are all moved by the earliest onset -- nothing is clipped, so durations and the
+   distances between notes are kept --, no onset is negative and some note starts at 0 *)
+Theorem remove_silence_notes : forall ns, ns <> [] -> Forall (fun n => (fst n <= snd n)%Q) ns ->
+  let s := rs_start (map fst ns) in
+  rs_notes ns = map (fun n => (fst n - s, snd n - s)%Q) ns /\
+  (forall n, In n ns -> (0 <= fst n - s)%Q) /\
+  (exists n, In n ns /\ (fst n - s == 0)%Q).
+Proof. exact remove_silence_notes_lemma. Qed.
+Print Assumptions remove_silence_notes.
+
+(* program changes: moved by the same amount when not before the first onset, otherwise put at 0; never
+   negative, order kept *)
+Theorem remove_silence_times : forall ns ts,
+  let s := rs_start (map fst ns) in
+  rs_times ns ts = map (fun t => qmax0 (t - s)) ts /\
+  (forall t, (s <= t)%Q -> qmax0 (t - s) = (t - s)%Q) /\
+  (forall t, (0 <= qmax0 (t - s))%Q) /\
+  (forall t u, (t <= u)%Q -> (qmax0 (t - s) <= qmax0 (u - s))%Q).
+Proof. exact remove_silence_times_lemma. Qed.
+Print Assumptions remove_silence_times.
+
+Example remove_silence_example :
+  forall2b (fun a b : Q * Q => Qeq_bool (fst a) (fst b) && Qeq_bool (snd a) (snd b))
+    (rs_notes [(3 # 2, 2); (5 # 4, 5 # 4); (7, 8)]%Q) [(1 # 4, 3 # 4); (0, 0); (23 # 4, 27 # 4)]%Q = true /\
+  forall2b Qeq_bool (rs_times [(3 # 2, 2); (5 # 4, 5 # 4)]%Q [0; 5 # 4; 2]%Q) [0; 0; 3 # 4]%Q = true.
+Proof. exact remove_silence_example_lemma. Qed.
+Print Assumptions remove_silence_example.
+
+(* ======================================================================================
+   load (save p), tracks not merged, as one statement about the loaded parts: when every track number
+   written carries a note, no part is dropped; the k-th loaded part is file track k and holds, in the
+   order of its ids, a permutation of the quantised notes of the k-th track number, ordered by (onset,
+   pitch, offset, channel).  (With sanitize_loaded the notes of part k get track number k; for a
+   Performance, whose track numbers are 0 .. n-1 by sanitize_range, that is the number they had.) *)
+Theorem save_load_parts : forall rule ppq mpq dmpq ps, notes_ok rule ppq mpq ps ->
+  (forall tr, In tr (save_tracks rule ppq mpq ps) -> exists n, In n (all_notes ps) /\ pn_track n = tr) ->
+  Forall2 (fun part i_tr => part_is rule ppq mpq ps i_tr part)
+          (fst (load dmpq false (save rule ppq mpq false ps))) (number_from 0 (save_tracks rule ppq mpq ps)).
+Proof. exact save_load_parts_lemma. Qed.
+Print Assumptions save_load_parts.
+
+(* the file tracks are the track numbers of the written messages in increasing order; when these are 0 .. n-1
+   (what Performance(...) guarantees, sanitize_range) the k-th file track -- hence, by save_load_parts and
+   sanitize_loaded, the track number of the k-th loaded part -- is track number k: "the same track" *)
+Theorem save_tracks_range : forall rule ppq mpq ps n,
+  (forall tr, In tr (map ev_track (emit_parts rule ppq mpq [] ps)) <-> 0 <= tr < Z.of_nat n) ->
+  save_tracks rule ppq mpq ps = zrange 0 n /\
+  number_from 0 (save_tracks rule ppq mpq ps) = map (fun k => (k, k)) (zrange 0 n).
+Proof. exact save_tracks_range_lemma. Qed.
+Print Assumptions save_tracks_range.
+
+Example save_load_parts_example :
+  (forall tr, In tr (save_tracks 0 480 500000 ex_ps) -> exists n, In n (all_notes ex_ps) /\ pn_track n = tr) /\
+  map lp_track (fst (load 500000 false (save 0 480 500000 false ex_ps))) = [0; 1].
+Proof. exact save_load_parts_example_lemma. Qed.
+Print Assumptions save_load_parts_example.
